@@ -228,7 +228,7 @@ func runC01(r *mc.Run) {
 			}
 			m := append([]byte(nil), b.raw...)
 			m[i/8] ^= 1 << uint(i%8)
-			err := world.SafeVerifyRaw(m, b.w.Options(l))
+			err := verifyRawBoth(r, id, m, b.w.Options(l))
 			prot := b.protectedRegion(i / 8)
 			out := c01Judge(r, id, "bit:"+b.regionName(i/8)+":", m, err, b, prot)
 			r.Eval(id, true, b.regionName(i/8)+":"+out)
@@ -292,7 +292,7 @@ func runC01(r *mc.Run) {
 				r.Eval(id, false, "reverse:palindrome")
 				return
 			}
-			err := world.SafeVerifyRaw(m, b.w.Options(l))
+			err := verifyRawBoth(r, id, m, b.w.Options(l))
 			out := c01Judge(r, id, "reverse:"+t.region+":", m, err, b, t.region)
 			r.Eval(id, true, "reverse:"+t.region+":"+out)
 		})
@@ -312,7 +312,7 @@ func runC01(r *mc.Run) {
 			}
 			copy(m[t.base+t.f.Off:], y)
 			copy(m[t.base+t.g.Off:], x)
-			err := world.SafeVerifyRaw(m, b.w.Options(l))
+			err := verifyRawBoth(r, id, m, b.w.Options(l))
 			out := c01Judge(r, id, "swap:"+t.region+":", m, err, b, t.region)
 			r.Eval(id, true, "swap:"+t.region+":"+out)
 		})
@@ -490,7 +490,7 @@ func c01Forgery(r *mc.Run, c *mc.Ctx, base *c01base, lv []int, nl int) {
 		r.HarnessError("C01 driver self-check: %s reference parser rejects a forged quote that keeps the layout: %v", id, perr)
 		return
 	}
-	err := world.SafeVerifyRaw(raw, w.Options(lv[li]))
+	err := verifyRawBoth(r, id, raw, w.Options(lv[li]))
 	out := c01Judge(r, id, "forge:", raw, err, nil, "")
 	r.Eval(id, c.Deviations() > 0, out)
 }
